@@ -27,7 +27,11 @@ MANIFEST = dict(
          "consumed, decided for {mode} x {blank / non-blank delimiter} x {separator is the delimiter / the newline ending a row} from the "
          "C99 meaning of the scan suffix's directives plus the single-character reads after the last fscanf; (c) the results of "
          "remove_dtype_byteorder and SFile._remove_byteorder cannot carry the argument's byte order: each type string (<entry>[1]) reaches "
-         "the result only without its first character, a result made by newbyteorder uses a code that means native.",
+         "the result only without its first character, a result made by newbyteorder uses a code that means native; (d) a member table that is not part of the "
+         "run configuration but is filled from it where the descriptor is ingested (a cached element size) is resolved by data flow: its single "
+         "element store is evaluated at the index at hand, provided every change of the tables it reads precedes that store in the same block; "
+         "(e) 'the delimiter comes from the stored header' accepts _match_key as well as a lookup in a dict built from the header's entries with "
+         "folded keys.",
     note="Not decided: libc printf/scanf numeric round trip and libc's own spellings of NaN/inf (special values the code spells itself are decided). "
          "Assumes LP64 and that stdio calls succeed. Bounded shapes, not a proof for all sizes. The whitespace-directive hazard is a recorded known finding.",
     technique="static analysis: bounded symbolic execution of the C++ reader/writer and format-table code over the clang AST (trace comparison), "
@@ -329,6 +333,10 @@ class _CX:
                 return ord(c[i])
             if isinstance(c, (_Vec, _Arr)):
                 raise _CUnrec("index %r into a table" % (i,))
+            if isinstance(c, tuple) and len(c) == 2 and c[0] == "sym" and isinstance(c[1], str) and c[1] not in self.mem and isinstance(i, int):
+                d = _derived_element(self, c[1], i)          # a member table filled from the tables of the configuration (a cached mSizes[i]/mNel[i] ...)
+                if d is not _NODEF:
+                    return d
             return ("idx", c, i)
         if k == "ptr":
             return ("load", loc[1], loc[2])
@@ -510,6 +518,14 @@ class _CX:
             t = _qt(n)
             if not args:
                 return _SStream() if "stringstream" in t else ("" if "basic_string" in t else (_Vec() if "vector<" in t else ("obj", t)))
+            if _ct(n).startswith(("std::vector<", "vector<")):
+                # vector(n) / vector(n, value): a table of concrete length; vector(other): a copy of another table
+                vals = [self.rv(a, env) for a in args]
+                if len(vals) == 1 and not isinstance(vals[0], (int, float)):
+                    return _Vec(vals[0].items) if isinstance(vals[0], _Vec) else vals[0]
+                if isinstance(vals[0], int) and len(vals) <= 2 and 0 <= vals[0] <= 64:
+                    return _Vec([vals[1] if len(vals) == 2 else ("" if "basic_string" in t or "vector<string" in t.replace("std::", "") else 0)] * vals[0])
+                raise _CUnrec("construction of a %s from %s" % (t, vals))
             if len(args) == 1:
                 return self.rv(args[0], env)
             return ("obj", t) + tuple(self.rv(a, env) for a in args)
@@ -751,6 +767,155 @@ class _CX:
             raise _CUnrec("statement %s" % k)
         else:
             self.rv(n, env)
+
+
+# ---------------------------------------------------------------------------
+# member tables that are derived from the tables of the test configuration
+#
+# The configuration of a run fixes mSizes, mNel, mTypeNums ... (what the descriptor ingest leaves behind).  Code may keep a value
+# computed from them in a further member table (`mElSizes[i] = mSizes[i]/mNel[i]` where the descriptor is ingested) and read that in
+# the reader / writer.  Such a table is resolved by data flow over the whole translation unit, not by its name: the single
+# element store `M[i] = E` is looked up, E may read nothing but member tables at the same index i and literals, and every
+# change of a table E reads has to come before the store in the same function with no jump in between (so M is recomputed
+# whenever its inputs change and cannot be stale); then M[k] is E evaluated at i = k in the configuration at hand.  Anything
+# else (several stores, a store under a condition its inputs' stores are not under, an alias, an unknown use) -> no verdict.
+# ---------------------------------------------------------------------------
+_NODEF = object()
+_MEMBER_USES = {}
+_JUMPS = ("ContinueStmt", "BreakStmt", "ReturnStmt", "GotoStmt", "CXXThrowExpr")
+
+
+def _is_this_member(n):
+    if n.get("kind") != "MemberExpr":
+        return False
+    ks = _kids(n)
+    return not ks or cfront.strip(ks[0]).get("kind") == "CXXThisExpr"
+
+
+def _member_uses(funcs):
+    """{member: [use]} for every data member named through `this` in the functions at hand; use = dict(kind=read|store|init|other, ...)"""
+    hit = _MEMBER_USES.get(id(funcs))
+    if hit is not None and hit[0] is funcs:
+        return hit[1]
+    uses, seen = {}, set()
+
+    def climb(chain, j):
+        rval = False
+        while j >= 0 and chain[j].get("kind") in _CASTS:
+            # read access: the value is loaded, or the lvalue is bound as const (an argument taken by const reference)
+            rval = rval or chain[j].get("castKind") == "LValueToRValue" or (chain[j].get("castKind") == "NoOp" and ((chain[j].get("type") or {}).get("qualType") or "").startswith("const "))
+            j -= 1
+        return j, rval
+
+    def classify(n, chain):
+        j, rval = climb(chain, len(chain) - 1)
+        if rval:
+            return dict(kind="read")
+        p = chain[j] if j >= 0 else None
+        if p is None:
+            return dict(kind="other", what="statement")
+        if p.get("kind") == "CXXOperatorCallExpr" and cfront.callee_name(p) == "operator[]" and len(cfront.call_args(p)) == 2 and cfront.strip(cfront.call_args(p)[0]) is n:
+            j2, rval2 = climb(chain, j - 1)
+            if rval2:
+                return dict(kind="read")
+            q = chain[j2] if j2 >= 0 else None
+            if q is not None and q.get("kind") == "BinaryOperator" and q.get("opcode") == "=" and cfront.strip(_kids(q)[0]) is p:
+                return dict(kind="store", idx=cfront.call_args(p)[1], rhs=_kids(q)[1], stmt=q, chain=list(chain[:j2]))
+            return dict(kind="other", what="element used as %s" % (q or {}).get("kind"))
+        if p.get("kind") == "MemberExpr" and j >= 1 and chain[j - 1].get("kind") == "CXXMemberCallExpr":
+            m = p.get("name")
+            if m in ("size", "empty", "length", "c_str"):
+                return dict(kind="read")
+            if m in ("assign", "resize", "clear", "reserve"):
+                return dict(kind="init", what=m)
+            return dict(kind="other", what="." + str(m))
+        return dict(kind="other", what=p.get("kind"))
+
+    for q, fn in funcs.items():
+        body = cfront.body_of(fn)
+        if body is None or id(fn) in seen:
+            continue
+        seen.add(id(fn))
+        pos, chain = [0], []
+
+        def rec(n):
+            pos[0] += 1
+            if _is_this_member(n) and "function type" not in _qt(n):
+                u = classify(n, chain)
+                u.update(fn=fn, fname=q, pos=pos[0])
+                uses.setdefault(n.get("name"), []).append(u)
+            chain.append(n)
+            for c in _kids(n):
+                rec(c)
+            chain.pop()
+        rec(body)
+    _MEMBER_USES.clear()
+    _MEMBER_USES[id(funcs)] = (funcs, uses)
+    return uses
+
+
+def _index_var(n):
+    n = cfront.strip(n)
+    rd = n.get("referencedDecl") or {}
+    return rd.get("name") if n.get("kind") == "DeclRefExpr" and rd.get("kind") in ("VarDecl", "ParmVarDecl") else None
+
+
+def _derived_element(cx, name, k):
+    uses = _member_uses(cx.funcs).get(name, [])
+    stores = [u for u in uses if u["kind"] == "store"]
+    if not stores:
+        return _NODEF
+    why = "member table %s is not in the test configuration and " % name
+    if len(stores) != 1:
+        raise _CUnrec(why + "its elements are stored at %d places" % len(stores))
+    st = stores[0]
+    for u in uses:
+        if u["kind"] == "other" or (u["kind"] == "init" and (u["fn"] is not st["fn"] or u["pos"] > st["pos"])):
+            raise _CUnrec(why + "%s uses it in a way that is not followed (%s)" % (u["fname"], u.get("what")))
+    iv = _index_var(st["idx"])
+    if iv is None:
+        raise _CUnrec(why + "is stored at a computed index")
+    reads, nmem, nsub = set(), 0, 0
+    for x in cfront.walk(st["rhs"]):
+        kd = x.get("kind")
+        rd = x.get("referencedDecl") or {}
+        if kd == "DeclRefExpr" and rd.get("kind") in ("VarDecl", "ParmVarDecl") and rd.get("name") != iv:
+            raise _CUnrec(why + "its defining expression reads the local %s" % rd.get("name"))
+        if kd in ("CallExpr", "CXXMemberCallExpr", "CXXConstructExpr", "UnaryExprOrTypeTraitExpr") or (kd == "CXXOperatorCallExpr" and cfront.callee_name(x) != "operator[]"):
+            raise _CUnrec(why + "its defining expression contains a %s" % kd)
+        if kd == "MemberExpr":
+            if not _is_this_member(x):
+                raise _CUnrec(why + "its defining expression reads a field of another object")
+            nmem += 1
+        if kd == "CXXOperatorCallExpr":
+            a = cfront.call_args(x)
+            if len(a) != 2 or not _is_this_member(cfront.strip(a[0])) or _index_var(a[1]) != iv:
+                raise _CUnrec(why + "its defining expression indexes something else than a member table at the same index")
+            nsub += 1
+            reads.add(cfront.strip(a[0]).get("name"))
+    if nmem != nsub or name in reads:
+        raise _CUnrec(why + "its defining expression reads a member that is not a table at the same index")
+    comp = next((c for c in reversed(st["chain"]) if c.get("kind") == "CompoundStmt"), None)
+    if comp is None:
+        raise _CUnrec(why + "its store is not a statement of a block")
+    sibs = _kids(comp)
+    here = next((j for j, s in enumerate(sibs) if s is st["stmt"] or any(y is st["stmt"] for y in cfront.walk(s))), None)
+    if here is None or sibs[here] is not st["stmt"] and cfront.strip(sibs[here]) is not st["stmt"]:
+        raise _CUnrec(why + "its store is part of a larger statement")
+    all_uses = _member_uses(cx.funcs)
+    for r in sorted(reads):
+        for u in all_uses.get(r, []):
+            if u["kind"] == "read":
+                continue
+            if u["kind"] == "other" or u["fn"] is not st["fn"] or u["pos"] > st["pos"]:
+                raise _CUnrec(why + "%s, which it is computed from, is changed in %s where %s is not recomputed afterwards" % (r, u["fname"], name))
+            if u["kind"] == "store":
+                if _index_var(u["idx"]) != iv or not any(c is comp for c in u["chain"]):
+                    raise _CUnrec(why + "%s, which it is computed from, is stored at another index or outside the block that computes %s" % (r, name))
+                first = next(j for j, s in enumerate(sibs) if s is u["stmt"] or any(y is u["stmt"] for y in cfront.walk(s)))
+                if first >= here or any(y.get("kind") in _JUMPS for s in sibs[first:here] for y in cfront.walk(s)):
+                    raise _CUnrec(why + "a path stores %s without reaching the statement that computes %s" % (r, name))
+    return cx.rv(st["rhs"], {iv: k})
 
 
 class _Trace:
@@ -2027,7 +2192,7 @@ class _PX:
         if isinstance(n, ast.Delete):
             for t in n.targets:
                 if isinstance(t, (ast.Subscript, ast.Attribute)):
-                    for (b, k), s in self.lvalue(t, st, ctx):
+                    for (b, k, _i), s in self.lvalue(t, st, ctx):
                         s.heap.pop((_hkey(b), k), None)
                         s.events.append(("del", b, k))
                 elif isinstance(t, ast.Name):
@@ -2048,10 +2213,10 @@ class _PX:
         raise _Unrec("statement %s at line %s" % (type(n).__name__, getattr(n, "lineno", "?")))
 
     def lvalue(self, t, st, ctx):
-        """[((base value, key), state)] of an attribute / subscript target"""
+        """[((base value, key, subscript term or None), state)] of an attribute / subscript target"""
         if isinstance(t, ast.Attribute):
-            return [((b, t.attr), s) for b, s in self.ev(t.value, st, ctx)]
-        return [((b, "[%s]" % _txt(i)), s) for (b, i), s in self.ev_many([t.value, t.slice], st, ctx)]
+            return [((b, t.attr, None), s) for b, s in self.ev(t.value, st, ctx)]
+        return [((b, "[%s]" % _txt(i), i), s) for (b, i), s in self.ev_many([t.value, t.slice], st, ctx)]
 
     def assign(self, t, v, st, ctx):
         if isinstance(t, ast.Name):
@@ -2060,9 +2225,9 @@ class _PX:
             r = self.lvalue(t, st, ctx)
             if len(r) != 1 or r[0][1] is not st:
                 raise _Unrec("forking assignment target")
-            b, k = r[0][0]
+            b, k, i = r[0][0]
             st.heap[(_hkey(b), k)] = v
-            st.events.append(("store", b, k, v))
+            st.events.append(("store", b, k, v, i))          # i: the subscript as a term (None for an attribute)
         elif isinstance(t, (ast.Tuple, ast.List)):
             for i, e in enumerate(t.elts):
                 self.assign(e, _V("sub", None, [v, _V("const", i)]), st, ctx)
@@ -2681,6 +2846,101 @@ def make_header(chk, repo):
     chk.ob("R04.3", k2, _verdict(v2), mh.where(), m2 + extra)
 
 
+_FOLDS = {"lower": str.lower, "upper": str.upper, "casefold": str.casefold}
+_DICT_READS = ("get", "keys", "items", "values", "copy", "__contains__", "__getitem__", "__len__")
+
+
+def _is_stored_header(v):
+    """the header of the file being opened, as read_header() returns it"""
+    return _is_call(v, "read_header")
+
+
+def _folded_view(x, st):
+    """x is a dict made on this path from the entries of a header h with every key passed through str.lower / upper / casefold:
+    (h, fold name), "empty" when nothing was stored into the new dict on this path, or None (not recognised).  Recognised through
+    the stores into the fresh dict: key = <key of an iteration over h>.fold(), value = the value that belongs to that key; the store
+    may only be guarded by `folded key not in x` (first spelling wins, what a case-insensitive search from the front finds)."""
+    fresh = x is not None and ((x.op == "seq" and x.name == "dict" and not x.args) or (_is_call(x, "dict") and x.args == [None] and not x.kw))
+    if not fresh:
+        return None
+    for e in st.events:
+        if (e[0] == "call" and e[1].args and e[1].args[0] is x and e[1].name not in _DICT_READS) or (e[0] == "del" and e[1] is x):
+            return None                    # update / pop / setdefault / del ...: more than the rule follows
+    stores = [e for e in st.events if e[0] == "store" and e[1] is x]
+    if not stores:
+        return "empty"
+    found = set()
+    for e in stores:
+        v, i = e[3], e[4]
+        if i is None or not (i.op == "call" and i.name in _FOLDS and len(i.args) == 1 and not i.kw and i.args[0] is not None):
+            return None
+        kx = i.args[0]
+        h = None
+        if kx.op == "sub" and kx.args[1].op == "const" and kx.args[1].name == 0 and kx.args[0].op == "elem" and _is_call(kx.args[0].args[0], "items") \
+                and len(kx.args[0].args[0].args) == 1:
+            el = kx.args[0]                                               # for k, v in h.items(): x[k.lower()] = v
+            if v.op == "sub" and v.args[0] is el and v.args[1].op == "const" and v.args[1].name == 1:
+                h = el.args[0].args[0]
+        elif kx.op == "elem":
+            el = kx                                                        # for k in h / h.keys(): x[k.lower()] = h[k]
+            src = el.args[0]
+            src = src.args[0] if _is_call(src, "keys") and len(src.args) == 1 else src
+            if v.op == "sub" and v.args[0] is src and v.args[1] is el:
+                h = src
+        else:
+            return None
+        if h is None:
+            return None
+        # what the path knows about this entry: nothing but "its folded key is not in x yet"
+        et, first = _txt(el), "%s in %s" % (_txt(i), _txt(x))
+        for fact, truth in st.known.items():
+            if et in fact and not (fact == first and truth is False):
+                return None
+        found.add((id(h), i.name))
+        hv = h
+    if len(found) != 1:
+        return None
+    return hv, next(iter(found))[1]
+
+
+def _delim_from_header(d, st):
+    """True: d is the entry of the stored header under the key `_delim`, whatever the case of the stored key; False: d provably is
+    something else (a parameter, a constant, the entry of another key, a lookup that cannot match); None: not recognised"""
+    if d is None:
+        return None
+    if d.op in ("param", "const"):
+        return False
+    key = hdr = None
+    if _is_call(d, "_match_key") and len(d.args) >= 3 and d.args[0] is None:
+        hdr, key = d.args[1], d.args[2]                                   # the library's own case-insensitive lookup
+        if key.op != "const" or not isinstance(key.name, str):
+            return None
+        if key.name.lower() != "_delim":
+            return False
+        return True if _is_stored_header(hdr) else (False if hdr.op in ("param", "const") else None)
+    if _is_call(d, "get", "__getitem__") and len(d.args) in (2, 3) and d.args[0] is not None and not d.kw:
+        hdr, key = d.args[0], d.args[1]
+        if len(d.args) == 3 and not (d.args[2].op == "const" and d.args[2].name is None):
+            return None
+    elif d.op == "sub":
+        hdr, key = d.args
+    else:
+        return None
+    if key.op != "const" or not isinstance(key.name, str):
+        return None
+    if key.name.lower() != "_delim":
+        return False
+    if _is_stored_header(hdr):
+        return True if key.name == "_DELIM" else None                     # a case-sensitive lookup: right only for the spelling the writer stores
+    fv = _folded_view(hdr, st)
+    if fv is None or fv == "empty":
+        return fv
+    h, fold = fv
+    if not _is_stored_header(h):
+        return False if h.op in ("param", "const") else None
+    return _FOLDS[fold](key.name) == key.name                             # a key in the other case is never found in the folded dict
+
+
 def sfile_open(chk, repo):
     so = repo.func("esutil.sfile.SFile.open")
     m = "when reading, the delimiter comes from the stored header"
@@ -2688,7 +2948,7 @@ def sfile_open(chk, repo):
     paths = _paths(chk, repo, so, [(k, m)])
     if paths is None:
         return
-    vs, notes = [], []
+    vs, notes, empties, read_ok = [], [], 0, False
     for ret, st in paths:
         if st.known.get("filename is None"):
             continue
@@ -2707,15 +2967,25 @@ def sfile_open(chk, repo):
             vs.append(None if other else False)
             notes.append("a path opens the file without setting self._delim or without making the Recfile %s" % (other or ""))
         elif reading:
-            hdr = d.args[1] if _is_call(d, "_match_key") and len(d.args) >= 3 else None
-            ok = hdr is not None and _is_call(hdr, "read_header") and d.args[2].op == "const" and str(d.args[2].name).lower() == "_delim"
-            vs.append(bool(ok) and all(p == _txt(d) for p in passed))
-            if not vs[-1]:
-                notes.append("reading: self._delim=%s, Recfile gets delim=%s" % (_txt(d), passed))
+            # semantic condition: self._delim (and what the Recfile is opened with) is the entry of the header read from the file under the
+            # key `_delim`, looked up without regard to case -- through the library's _match_key, or through a dict whose keys were folded
+            ok = _delim_from_header(d, st)
+            if ok == "empty":
+                empties += 1                # the lookup is made in a dict that got no entry on this path (a header without entries)
+                continue
+            for c in rf:
+                pv = c.kw.get("delim")
+                same = pv is d or (pv is not None and _txt(pv) == _txt(d))
+                if not same:
+                    ok = None if (pv is None and "**" in c.kw and ok is not False) else (False if ok is False or pv is None or pv.op in ("param", "const") else None)
+            vs.append(ok)
+            read_ok = read_ok or ok is True
+            if not ok:
+                notes.append("reading: self._delim=%s, Recfile gets delim=%s%s" % (_txt(d), passed, "" if ok is False else " [lookup not recognised]"))
         else:
             vs.append(d.op == "param" and d.name == "delim" and all(p == "delim" for p in passed))
             if not vs[-1]:
                 notes.append("writing: self._delim=%s, Recfile gets delim=%s" % (_txt(d), passed))
-    if not any(v is True for v in vs):
-        vs.append(None)
+    if not any(v is True for v in vs) or (empties and not read_ok):
+        vs.append(None)                     # no path on which the rule was seen to hold: nothing was recognised
     chk.ob("R04.3", k, _verdict(vs), so.where(), m + ((" (%s)" % "; ".join(notes[:3])) if notes else ""))
